@@ -72,6 +72,9 @@ func replayC03Calls(r *Run, o *Obligation) *ReplayResult {
 }
 
 func replayC03(r *Run, o *Obligation) *ReplayResult {
+	if strings.Contains(o.Name, "scriptElementParser") || strings.HasPrefix(o.Name, "v2.") || strings.HasPrefix(o.Name, "parser.") {
+		return replayC03Quotes(r)
+	}
 	if strings.HasPrefix(o.Name, "templ.") || strings.HasPrefix(o.Name, "lemma:inl_") || strings.HasPrefix(o.Name, "lemma:dq_") {
 		return replayC03Calls(r, o)
 	}
@@ -117,4 +120,119 @@ func replayC03(r *Run, o *Obligation) *ReplayResult {
 		return &ReplayResult{Confirmed: true, Input: "bounded search: " + strconv.Quote(in), Detail: "REPLAY-CONFIRMED " + detail}
 	}
 	return &ReplayResult{Confirmed: false, Input: fmt.Sprintf("bounded search over %d strings (JS-adversarial alphabet, length <= 3, plus known vectors)", len(ins)), Detail: "REPLAY-NOT-REPRODUCED" + map[bool]string{true: " (replay harness error: " + firstLines(replayErr, 3) + ")", false: ""}[replayErr != ""]}
+}
+
+// C03, quote state: the parser decides for every {{ }} in a script element whether it sits inside a JavaScript string
+// literal (which picks the escaper). scriptElementParser is outside the executor's subset, so this is a bounded
+// stand-in (quick tier too): script texts built from literals of the three kinds with escaped quotes, escaped
+// backslashes and comments, with a Go expression at every position; an independent lexer says what each position is.
+const c03QuoteHarness = `package parser
+
+import (
+	"fmt"
+	"strings"
+	"testing"
+)
+
+// verifInsideLiteral: is offset off of js inside a '...', "..." or backtick literal (comments skipped)?
+func verifInsideLiteral(js string, off int) bool {
+	var q byte
+	for i := 0; i < off && i < len(js); i++ {
+		c := js[i]
+		if q != 0 {
+			if c == '\\' {
+				i++
+				continue
+			}
+			if c == q {
+				q = 0
+			}
+			continue
+		}
+		switch {
+		case c == '\'' || c == '"' || c == 0x60:
+			q = c
+		case c == '/' && i+1 < len(js) && js[i+1] == '/':
+			for i < len(js) && js[i] != '\n' {
+				i++
+			}
+		case c == '/' && i+1 < len(js) && js[i+1] == '*':
+			j := strings.Index(js[i+2:], "*/")
+			if j < 0 {
+				return false
+			}
+			i += j + 3
+		}
+	}
+	return q != 0
+}
+
+func TestVerifReplayC03Quotes(t *testing.T) {
+	pieces := []string{"var a = ", "'it\\'s '", "\"say \\\"hi\\\" \"", "\x60tick \\\x60 \x60", "'back\\\\'", "\"q'\"", "'d\"'", " + ", "// it's a comment\n", "/* \" */", ";\n", "'tail'"}
+	n := 0
+	for i := range pieces {
+		for j := range pieces {
+			for k := range pieces {
+				parts := []string{pieces[i], pieces[j], pieces[k]}
+				// a Go expression after each piece and inside each literal piece (after its first character and before its last)
+				var variants []string
+				for at := 0; at <= 3; at++ {
+					variants = append(variants, strings.Join(parts[:at], "")+"{{ v }}"+strings.Join(parts[at:], ""))
+				}
+				for at := 0; at < 3; at++ {
+					p := parts[at]
+					if len(p) > 2 && (p[0] == '\'' || p[0] == '"' || p[0] == 0x60) {
+						variants = append(variants, strings.Join(parts[:at], "")+p[:1]+"{{ v }}"+p[1:]+strings.Join(parts[at+1:], ""))
+						variants = append(variants, strings.Join(parts[:at], "")+p[:len(p)-1]+"{{ v }}"+p[len(p)-1:]+strings.Join(parts[at+1:], ""))
+					}
+				}
+				for _, js := range variants {
+					src := "package p\n\ntempl t(v string) {\n\t<script>\n" + js + "\n</script>\n}\n"
+					tf, err := ParseString(src)
+					if err != nil {
+						continue
+					}
+					want := verifInsideLiteral(strings.Replace(js, "{{ v }}", "", 1), strings.Index(js, "{{ v }}"))
+					var got *bool
+					for _, nd := range tf.Nodes {
+						if ht, ok := nd.(HTMLTemplate); ok {
+							for _, c := range ht.Children {
+								if se, ok := c.(ScriptElement); ok {
+									for _, sc := range se.Contents {
+										if sc.GoCode != nil {
+											b := sc.InsideStringLiteral
+											got = &b
+										}
+									}
+								}
+							}
+						}
+					}
+					if got == nil {
+						continue
+					}
+					n++
+					if *got != want {
+						fmt.Printf("REPLAY-CONFIRMED script %q: the Go expression is %s a string literal, the parser marks it as %s (the value would be written with the wrong escaper)\n", js, map[bool]string{true: "inside", false: "outside"}[want], map[bool]string{true: "inside", false: "outside"}[*got])
+						return
+					}
+				}
+			}
+		}
+	}
+	fmt.Printf("REPLAY-NOT-REPRODUCED bounded search: %d script texts (3 pieces out of 12: literals of the three kinds with escaped quotes and backslashes, comments, code) with a Go expression at every position agree with an independent lexer\n", n)
+}
+`
+
+func replayC03Quotes(r *Run) *ReplayResult {
+	if r.replayOut == nil {
+		r.replayOut = map[string]string{}
+	}
+	out, ok := r.replayOut["C03quotes"]
+	if !ok {
+		out, _ = r.runReplayTest("parser/v2", c03QuoteHarness, map[string]string{}, "TestVerifReplayC03Quotes")
+		r.replayOut["C03quotes"] = out
+	}
+	okc, detail := replayVerdict(out)
+	return &ReplayResult{Confirmed: okc, Input: "script elements parsed by the real parser, quote state compared with an independent lexer", Detail: detail}
 }
